@@ -153,7 +153,7 @@ var builtinCoq = map[string]string{
 	"return": "BReturn", "+": "BAdd", "-": "BSub", "*": "BMul", "%": "BMod", "<": "BLt",
 	"<=": "BLe", "==": "BEq", "!=": "BNe", ">": "BGt", ">=": "BGe", "eq": "BValEq",
 	"not-eq": "BNotEq", "not": "BNot", "each": "BEach", "take": "BTake", "drop": "BDrop",
-	"count": "BCount", "all": "BAll", "range": "BRange", "defer": "BDefer",
+	"count": "BCount", "all": "BAll", "range": "BRange", "defer": "BDefer", "keys": "BKeys",
 }
 
 // ------------------------------------------------------------ Elvish source
@@ -173,6 +173,9 @@ func bareOK(s string) bool {
 func quote(s string) string { return "'" + strings.ReplaceAll(s, "'", "''") + "'" }
 
 func strSrc(s string, forceQuote bool) string {
+	if s == "" {
+		return "''"
+	}
 	if !forceQuote && bareOK(s) {
 		return s
 	}
